@@ -95,7 +95,10 @@ func (s *DiskKeyIndex) binarySearch(target []byte) (uint64, *proto.IndexEntry, b
 		at, err := s.findAt(h)
 		if err != nil {
 			if errors.Is(err, io.EOF) {
-				return n, nil, false, nil
+				// no record starts at or after h, which is like comparing with a key greater than everything: the search
+				// has to continue in the lower half. That happens when the last record spans the middle of the file.
+				j = h
+				continue
 			}
 			return 0, nil, false, err
 		}
@@ -123,7 +126,7 @@ func (s *DiskKeyIndex) findAt(off uint64) (*proto.IndexEntry, error) {
 
 	record := &proto.IndexEntry{}
 	_, _, err := s.reader.SeekNext(record, off)
-	if len(s.offsetCache) < s.offsetCacheMaxSize {
+	if err == nil && len(s.offsetCache) < s.offsetCacheMaxSize {
 		s.offsetCache[off] = record
 	}
 
